@@ -206,7 +206,7 @@ class Foot:
             ctxs = [c for c in self.loop_ctx if c[0] == ivid]
             if not ctxs:
                 raise Unsupported('induction variable used outside its loop at %s' % loc_str(node))
-            _, cnt = ctxs[-1]
+            _, cnt, start0 = ctxs[-1]
             if isinstance(cnt, tuple):
                 lo, hi = cnt
                 for i in range(lo, hi + 1):
@@ -214,7 +214,7 @@ class Foot:
             else:
                 if off.coef <= 0:
                     raise Unsupported('descending/constant buffer walk in a run-time loop at %s' % loc_str(node))
-                self.acc.append(Access(off.base, size, cnt, off.coef, kind, node, partner, write))
+                self.acc.append(Access(off.base + Aff(off.coef * start0, 0), size, cnt, off.coef, kind, node, partner, write))
         else:
             self.acc.append(Access(off, size, None, None, kind, node, partner, write))
 
@@ -312,12 +312,13 @@ class Foot:
                 cnt = (start.c, int(rhs['cv']) - 1)
                 if cnt[1] - cnt[0] > 4096:
                     raise Unsupported('loop too long at %s' % loc_str(s))
-            elif rhs_s == 'this.l' and start.c == 0:
-                cnt = Aff(0, 1)
+            elif rhs_s == 'this.l' and start.c >= 0:
+                # iv runs over [start, l): l - start iterations (none when l <= start), the first at iv = start
+                cnt = Aff(-start.c, 1)
             else:
                 raise Unsupported('loop bound %s at %s' % (rhs_s, loc_str(s)))
             self.env[ivid] = ('ivsym',)
-            self.loop_ctx.append((ivid, cnt))
+            self.loop_ctx.append((ivid, cnt, start.c if not isinstance(cnt, tuple) else 0))
             self.stmt(s['body'])
             self.loop_ctx.pop()
             self.env.pop(ivid, None)
